@@ -8,6 +8,34 @@ REC = "datasketches::bloom_filter_alloc"
 BITOPS_W = ("set_bit", "clear_bit", "assign_bit", "get_and_set_bit", "union_with", "intersect", "invert")
 
 
+_PUB = {}
+
+
+def publishers(fns):
+    """names of the helper(s) that publish the bit count, recognised by what they do: a one-parameter member that stores its
+    parameter into num_bits_set_ and clears is_dirty_ (update_num_bits_set in the reviewed tree)"""
+    k = id(fns)
+    if k in _PUB:
+        return _PUB[k]
+    names = set()
+    for f in fns.values():
+        if f.get("rect") != REC or f.get("body") is None or len(f.get("params") or []) != 1 or f.get("kind") in ("ctor", "dtor"):
+            continue
+        pd = f["params"][0].get("d")
+        st_count, clr = [False], [False]
+
+        def v(n):
+            if n.get("k") == "Assign" and n.get("op") == "=" and is_this_field(n["l"], ("num_bits_set_",)) and strip(n["r"]).get("k") == "Ref" and strip(n["r"]).get("d") == pd:
+                st_count[0] = True
+            if n.get("k") == "Assign" and n.get("op") == "=" and is_this_field(n["l"], ("is_dirty_",)) and strip(n["r"]).get("k") == "Bool" and not strip(n["r"]).get("b"):
+                clr[0] = True
+        walk(f["body"], v)
+        if st_count[0] and clr[0]:
+            names.add(f["name"])
+    _PUB[k] = tuple(sorted(names)) or ("update_num_bits_set",)
+    return _PUB[k]
+
+
 def bloom_fns(facts):
     """the member functions of the filter as the rules look at them: statement-level calls of private void helpers are seen through
     (checks or bit loops moved into a helper are still found in the operation that uses them); the calls the rules anchor on stay"""
@@ -17,7 +45,7 @@ def bloom_fns(facts):
     bf = {}
     for p, f in fns.items():
         if f.get("rect") == REC:
-            bf[p] = dict(f, body=inlined_body(f, by_pat, keep=("update_num_bits_set",))) if f.get("body") is not None else f
+            bf[p] = dict(f, body=inlined_body(f, by_pat, keep=publishers(fns))) if f.get("body") is not None else f
     return fns, bf
 
 
@@ -42,7 +70,7 @@ def writes_bits(n):
 def typestate(facts):
     fns, bf = bloom_fns(facts)
     out = []
-    upd = {p for p, f in bf.items() if f["name"] == "update_num_bits_set"}
+    upd = {p for p, f in bf.items() if f["name"] in publishers(fns)}
     for pat, fn in sorted(bf.items()):
         if fn["kind"] in ("ctor", "dtor") or fn.get("special"):
             continue
@@ -106,7 +134,7 @@ def stale_count(facts):
     fns, bf = bloom_fns(facts)
     out = []
     for pat, fn in sorted(bf.items()):
-        if fn["kind"] in ("ctor", "dtor") or fn.get("special") or fn["name"] in ("update_num_bits_set",):
+        if fn["kind"] in ("ctor", "dtor") or fn.get("special") or fn["name"] in publishers(fns):
             continue
         idx = [0]
         st = stmts_of(fn["body"])
@@ -286,6 +314,21 @@ def bitops(facts):
     fns = functions_by(facts, ["filters"])
     out = []
     want = {"union_with": "|", "intersect": "&", "invert": "~"}
+    # one-parameter helpers whose whole job is `std::bitset<N> b(param); return b.count();`
+    popc = set()
+    for p0, f0 in fns.items():
+        if f0.get("body") is None or len(f0.get("params") or []) != 1:
+            continue
+        sa0 = single_assignment_locals(f0)
+        st0 = stmts_of(f0["body"])
+        if not st0 or st0[-1].get("k") != "Return" or any(x.get("k") not in ("Decl", "Return") for x in st0):
+            continue
+        r0 = strip_all(st0[-1].get("e") or {})
+        if r0.get("k") == "Call" and r0.get("cname") == "count" and "bitset" in (r0.get("crec") or r0.get("callee") or ""):
+            o0 = strip(r0.get("obj") or {})
+            c0 = sa0.get(o0.get("d")) if o0.get("k") == "Ref" else o0
+            if isinstance(c0, dict) and c0.get("k") == "Construct" and len(c0.get("args", [])) == 1 and strip_all(c0["args"][0]).get("d") == f0["params"][0].get("d"):
+                popc.add(p0)
     for pat, fn in sorted(fns.items()):
         if not (fn["qname"].startswith("datasketches::bit_array_ops::") and fn["name"] in want):
             continue
@@ -328,6 +371,9 @@ def bitops(facts):
                     else:
                         good = (e["op"] == op + "=" and r == src) or (e["op"] == "=" and r in ("(%s%s%s)" % (cell, op, src), "(%s%s%s)" % (src, op, cell)))
                     events.append((ln, "store" if good else "badstore", txt(e), r if e["op"] == "=" else None))
+                elif isinstance(e, dict) and e.get("k") == "Assign" and e["op"] == "+=" and strip_all(e["r"]).get("k") == "Call" and strip_all(e["r"]).get("cpat") in popc and len(strip_all(e["r"]).get("args", [])) == 1:
+                    # a helper that returns the population count of its argument
+                    events.append((ln, "count", txt(strip_all(e["r"])["args"][0], sa).replace(" ", ""), cell))
                 elif isinstance(e, dict) and e.get("k") == "Assign" and e["op"] == "+=" and "count()" in txt(e["r"]):
                     # what the counted bitset was constructed from
                     o = strip(strip_all(e["r"]).get("obj")) if isinstance(strip_all(e["r"]), dict) else None
@@ -466,6 +512,7 @@ def recount_before_writes(facts):
     fns, bf = bloom_fns(facts)
     out = []
     WRITERS = ("get_and_set_bit", "set_bit", "assign_bit")
+    PUBS = publishers(fns)
     for pat, fn in sorted(bf.items()):
         if fn.get("body") is None:
             continue
@@ -476,7 +523,7 @@ def recount_before_writes(facts):
                 writes.append(n)
             if n.get("k") == "Call" and n.get("cname") == "get_bits_used" and (n.get("obj") is None or strip(n["obj"]).get("k") == "This"):
                 recounts.append(n)
-            if n.get("k") == "Call" and n.get("cname") == "update_num_bits_set":
+            if n.get("k") == "Call" and n.get("cname") in PUBS:
                 adjusts.append(n)
             if n.get("k") in ("Assign", "Un") and is_this_field(n.get("l") or n.get("e") or {}, ("num_bits_set_",)) and (n.get("op") in ("+=", "++")):
                 adjusts.append(n)
